@@ -480,7 +480,7 @@ theorem closeBegin_invV {σ σ' : St} (hr : InvR σ) (hv : InvV σ)
 
 theorem closeFiles_invV {σ σ' : St} (hr : InvR σ) (hv : InvV σ)
     (h : σ.closeFiles = some σ') : InvV σ' := by
-  obtain ⟨_, _, _, _, _, hσ⟩ := closeFiles_spec h
+  obtain ⟨_, _, _, _, hσ⟩ := closeFiles_spec h
   apply frame_invV hr hv (by rw [hσ]) (by rw [hσ])
   · intro x hx; left; rw [hσ] at hx; exact hx
   · intro v _ t _; rw [hσ]
